@@ -234,6 +234,80 @@ Theorem C06_early_release_refuted : ~ early_release_safe.
 Proof. exact early_release_refuted. Qed.
 Print Assumptions C06_early_release_refuted.
 
+(* ---- composite cores written through their own Write method; cores whose Write fails ----
+   zap's own wrappers let the cores beneath them register individually in Core.Check, so CheckedEntry.Write calls
+   the IO cores directly.  A user-defined wrapper of the usual shape (filter / audit / metrics core: embed the Core,
+   Check adds ITSELF when the wrapped core is enabled, Write forwards to the wrapped core) puts multiCore.Write,
+   levelFilterCore.Write, lazyWithCore.Write, the sampler's promoted Write and hooked.Write between the CheckedEntry
+   and the IO cores.  [xcore] is a composition as its Write methods see it (any nesting of tees, filters, samplers,
+   lazy cores, hooked cores and wrappers over IO cores), [fails id] says that the sink of IO core id fails every
+   Write, [hfails h] that a hook function of set h returns an error - both ARBITRARY below.
+   Core.Write of a composite hands the entry to every IO core beneath it along the edges that forward Write
+   ([x_reach]: all of a tee's cores, in order, whatever the others returned; none beneath a hooked core, whose
+   Write runs the hooks only), runs the hook sets due, and reports an error exactly when something failed *)
+Theorem C06_composite_write_reaches_every_core : forall fails hfails hi c,
+  writes_of (fst (x_write fails hfails hi c)) = x_reach c /\
+  ev_fhooks_of (fst (x_write fails hfails hi c)) = x_hooks c /\
+  ev_hooks_of (fst (x_write fails hfails hi c)) = [] /\
+  snd (x_write fails hfails hi c) = existsb fails (x_reach c) || existsb hfails (x_hooks c).
+Proof. exact composite_write_thm. Qed.
+Print Assumptions C06_composite_write_reaches_every_core.
+(* ... and above error level every healthy one of them is synced right after its Write, at every position of every tee *)
+Theorem C06_healthy_core_synced_whatever_fails : forall fails hfails c id,
+  In id (x_reach c) -> fails id = false ->
+  exists a b, fst (x_write fails hfails true c) = a ++ EWrite id :: ESync id :: b.
+Proof. exact healthy_core_synced. Qed.
+Print Assumptions C06_healthy_core_synced_whatever_fails.
+(* "return on the first error" in multiCore.Write is refuted: the healthy core behind a failing one is lost *)
+Theorem C06_tee_first_error_refuted : ~ tee_first_error_full.
+Proof. exact tee_first_error_refuted. Qed.
+Print Assumptions C06_tee_first_error_refuted.
+(* the wrapper as Core.Check sees it is a leaf whose enabler is the wrapped core's Enabled (wire: a truth table over
+   the 256 values of zapcore.Level), so every theorem above about what Check registers applies to trees with wrappers *)
+Theorem C06_wrapper_registers_when_enabled : forall (f : level -> bool) w l,
+  -128 <= l <= 127 -> on w (dec_en (SL [SZ 2; SB (tbl_of f)])) l = f l.
+Proof. exact fwd_enabler_spec. Qed.
+Print Assumptions C06_wrapper_registers_when_enabled.
+(* [log_call_x fx dec w lg (fam_of m) l]: the call on a logger whose CheckedEntry may hold wrappers ([fe_fw fx id] = what
+   wrapper id wraps; [lcore lg] = the tree as Check sees it) and whose cores may fail ([fe_fails fx], [fe_hfails fx]).
+   Whatever is wrapped, whatever fails, whatever the samplers decide, every front-end method at a terminal level
+   writes every core on the CheckedEntry through its Write method and then runs the terminal action *)
+Theorem C06_terminates_forwarding : forall fx dec w lg m l,
+  In m methods -> can_log m l = true -> terminal lg l ->
+  log_call_x fx dec w lg (fam_of m) l =
+  (fst (ce_write fx true (cores_of (check_s dec w (lcore lg) 0 l None))), Some (expected_action lg l)).
+Proof. exact terminates_x_thm. Qed.
+Print Assumptions C06_terminates_forwarding.
+(* before control is lost the entry has been handed, in order, to every IO core it had to reach ([must_reach]: the
+   leaves on accepting paths and, for every wrapper on an accepting path, every leaf its Write reaches - the failing
+   ones included), the hooks due have run, and every HEALTHY one of these IO cores has been synced right after its
+   Write, so that the file behind a buffered sink holds the line - whichever other cores failed *)
+Theorem C06_written_first_forwarding : forall fx dec w lg m l,
+  In m methods -> can_log m l = true -> terminal lg l ->
+  let evs := fst (log_call_x fx dec w lg (fam_of m) l) in
+  writes_of evs = must_reach fx dec w lg l /\
+  ev_hooks_of evs = hooks_due_s dec w (lcore lg) 0 l /\
+  ev_fhooks_of evs = flat_map (fhooks_of fx) (delivered_s dec w (lcore lg) 0 l) /\
+  sync_ok_x (fe_fails fx) true evs = true /\
+  (forall id, In id (must_reach fx dec w lg l) -> fe_fails fx id = false ->
+     (exists a b, evs = a ++ EWrite id :: ESync id :: b) /\
+     flushed_lines_x (fe_fails fx) id evs 0 0 = count_writes id (must_reach fx dec w lg l)).
+Proof. exact written_first_x_thm. Qed.
+Print Assumptions C06_written_first_forwarding.
+(* ... and every sink below every such healthy IO core, whatever the sink stack, has committed everything *)
+Theorem C06_committed_before_control_is_lost_forwarding : forall fx dec w lg m l lens st,
+  In m methods -> can_log m l = true -> terminal lg l ->
+  let st' := run_evs_x (fe_fails fx) lens st (fst (log_call_x fx dec w lg (fam_of m) l)) in
+  forall id, In id (must_reach fx dec w lg l) -> fe_fails fx id = false ->
+    Forall (eq 0) (sk_pending 0 (st' id)) /\ map (Z.add 0) (sk_committed (st' id)) = sk_held 0 (st' id).
+Proof. exact committed_first_x_thm. Qed.
+Print Assumptions C06_committed_before_control_is_lost_forwarding.
+(* no wrapper and nothing fails: the call of the theorems further up *)
+Theorem C06_forwarding_conservative : forall dec w lg f l,
+  log_call_x fx_plain dec w lg f l = log_call_s dec w lg all_io f l.
+Proof. exact forwarding_conservative. Qed.
+Print Assumptions C06_forwarding_conservative.
+
 Theorem C06_wire : forall i, wf i = true -> spec i (model i) = true.
 Proof. exact spec_model. Qed.
 Print Assumptions C06_wire.
@@ -310,4 +384,25 @@ Example C06_example_logging_hook :
                     SL [ex_seen_ok; ex_seen_ok]]]; SL []]) = false /\
   (* the same interleaving with "Put, then hook": the hook finds a recycled entry *)
   snd (wire_seen true panic_entry 1 1 0) = aux_entry.
+Proof. vm_compute. repeat split; reflexivity. Qed.
+(* an audit wrapper (number 100) around tee[core 0 whose sink is broken, core 1, hooked core 2 (hook set 4), filter
+   that lets only Fatal through over core 3], Logger.Panic("hi") with a custom panic hook: the broken core is tried,
+   cores 1 and 3 are written and synced (levelFilterCore.Write does not ask the level), hook set 4 runs, then the
+   hook; the oracle rejects the run of a tee that stopped at the broken core *)
+Definition ex_lf (id : Z) : sx := SL [SZ 0; SZ id; SL [SZ 0; SZ (-1)]].
+Definition ex_wrapped_tee : sx :=
+  SL [SZ 9; SL [SZ 2; ex_lf 0; ex_lf 1; SL [SZ 3; ex_lf 2; SZ 4]; SL [SZ 4; ex_lf 3; SL [SZ 0; SZ 5]]]; SZ 100].
+Definition ex_fwd_case : sx :=
+  SL [ex_wrapped_tee; SL []; SZ 0; SL [SZ 5; SZ 7]; SL [SZ 0]; SZ 0; SL [ex_panic_call]; SL []; SL []; SL [SZ 0]].
+Definition ex_seen_hi : sx := SL [SZ 4; SB [x68; x69]; SB []].
+Example C06_example_forwarding :
+  model ex_fwd_case =
+  SL [SL [SL [SL [SL [SZ 0; SZ 0]; SL [SZ 0; SZ 1]; SL [SZ 1; SZ 1]; SL [SZ 3; SZ 4]; SL [SZ 0; SZ 3]; SL [SZ 1; SZ 3]];
+              SL [SZ 3; SZ 7]; SL []; SL []; SL [ex_seen_hi; ex_seen_hi]]]; SL []] /\
+  spec ex_fwd_case (model ex_fwd_case) = true /\
+  spec ex_fwd_case (SL [SL [SL [SL [SL [SZ 0; SZ 0]]; SL [SZ 3; SZ 7]; SL []; SL []; SL [ex_seen_hi]]]; SL []]) = false /\
+  (* the same tee on the CheckedEntry without a wrapper: CheckedEntry.Write goes on after the broken core, too *)
+  fst (log_call_x {| fe_fw := fun _ => None; fe_fails := fun i => Nat.eqb i 0; fe_hfails := fun _ => false |} no_drop (fun _ => 0)
+         {| lcore := Tee [Leaf 0 (ELvl InfoL); Leaf 1 (ELvl InfoL)]; dev := false; on_panic := HNil; on_fatal := HNil |} FLogger FatalL) =
+  [EWrite 0; EWrite 1; ESync 1].
 Proof. vm_compute. repeat split; reflexivity. Qed.
